@@ -1,10 +1,253 @@
 package checks
 
 import (
+	"regexp"
+	"strings"
+
 	"mvdan.cc/sh/v3/syntax"
 )
 
-// c03Classify names the narrow family a failure belongs to, or "".
+// Classes of C03 failures. Each predicate looks at the syntactic shape of the
+// original program, the printer options common to all configurations that
+// produce the offending text, and the direction of the divergence. Anything
+// else stays unclassified.
+
+// c03BashLineAbort matches the diagnostics of the bash errors that make a
+// non-interactive bash give up the rest of the command line it is executing
+// (it jumps back to the reader, so `a; b` and `a⏎b` differ after such an
+// error in a).
+var c03BashLineAbort = regexp.MustCompile(`invalid indirect expansion|bad substitution|invalid variable name|syntax error in expression|division by 0|syntax error: operand expected|syntax error: invalid arithmetic operator|value too great for base|invalid arithmetic base|invalid number|unbound variable|bad array subscript|expression recursion level exceeded|attempted assignment to non-variable|invalid name for|exponent less than 0|expression expected|error token is|cannot assign list to array member|: parameter null or not set|: parameter not set`)
+
+func c03HasOnly(t c03Case, opt string) bool {
+	for _, o := range strings.Split(t.Only, ",") {
+		if o == opt {
+			return true
+		}
+	}
+	return false
+}
+
 func c03Classify(t c03Case, f *syntax.File, text string, diffs []string, o *c03Orig, gotB, gotI c03Res) string {
+	onlyBash := len(diffs) == 1 && diffs[0] == "bash"
+	switch {
+	case onlyBash && strings.Contains(t.Src, "\r") && !strings.Contains(text, "\r"):
+		// the parser reads CR LF (and CR before blanks/escaped newlines) as a
+		// line end; bash takes the CR as part of a word
+		return "carriage-return-dropped"
+	case onlyBash && c03HasOnly(t, "mn") && c03ParamBeforeBrace(f):
+		return "minify-unbraces-parameter-before-brace-expansion"
+	case c03ArithSigns(f, false):
+		return "arithmetic-unary-sign-fused-with-operand-sign"
+	case c03ArithSigns(f, true) && (c03HasOnly(t, "mn") || c03ArithSignsCompactContext(f)):
+		return "arithmetic-compact-binary-sign-fused-with-operand-sign"
+	case len(diffs) == 1 && diffs[0] == "interp" && c03PrintsFunctionSource(f):
+		// interp's declare -f / type print the body as laid out in the source
+		return "interp-function-listing-reflects-source-layout"
+	case onlyBash && c03HasOnly(t, "sl") && c03ParseTimeSwitch(f, text):
+		return "single-line-joins-parse-time-switch-with-its-use"
+	case c03HasOnly(t, "sl") && c03HeredocInsideHeredocBody(f):
+		return "single-line-nested-heredoc-in-heredoc-body"
+	case onlyBash && gotB.Flag == "" && c03PrefixRelated(o.bash.Out, gotB.Out) &&
+		(c03BashLineAbort.MatchString(o.bash.errOut) || c03BashLineAbort.MatchString(gotB.errOut)) &&
+		c03SameLineJoinChanged(t.Src, text, o.bash.errOut, gotB.errOut):
+		return "bash-abandons-rest-of-line-after-expansion-error"
+	}
 	return ""
+}
+
+// c03PrefixRelated: one output is a prefix of the other (commands after the
+// failing one ran in one form and not in the other; with equal outputs only
+// the final status differs).
+func c03PrefixRelated(a, b string) bool {
+	return strings.HasPrefix(a, b) || strings.HasPrefix(b, a)
+}
+
+// c03SameLineJoinChanged: the set of diagnostics is the same in both runs up
+// to the line numbers (the failing command itself behaves the same; only what
+// bash does with the rest of its line differs).
+func c03SameLineJoinChanged(src, text, errA, errB string) bool {
+	norm := func(s string) string {
+		return regexp.MustCompile(`line [0-9]+:`).ReplaceAllString(s, "line N:")
+	}
+	a, b := strings.Split(strings.TrimSpace(norm(errA)), "\n"), strings.Split(strings.TrimSpace(norm(errB)), "\n")
+	if len(a) == 0 || len(b) == 0 {
+		return false
+	}
+	return a[0] == b[0]
+}
+
+// c03ParamBeforeBrace: some word has a braced simple parameter expansion
+// directly followed by a literal starting with "{" (a brace expansion).
+func c03ParamBeforeBrace(f *syntax.File) bool {
+	found := false
+	syntax.Walk(f, func(n syntax.Node) bool {
+		var parts []syntax.WordPart
+		if w, ok := n.(*syntax.Word); ok {
+			parts = w.Parts
+		}
+		for i := 0; i+1 < len(parts); i++ {
+			pe, ok := parts[i].(*syntax.ParamExp)
+			if !ok || pe.Short {
+				continue
+			}
+			if lit, ok := parts[i+1].(*syntax.Lit); ok && strings.HasPrefix(lit.Value, "{") {
+				found = true
+			}
+		}
+		return !found
+	})
+	return found
+}
+
+// c03HeredocInsideHeredocBody: a here-document body contains a command
+// substitution that itself has a here-document.
+func c03HeredocInsideHeredocBody(f *syntax.File) bool {
+	found := false
+	syntax.Walk(f, func(n syntax.Node) bool {
+		r, ok := n.(*syntax.Redirect)
+		if !ok || r.Hdoc == nil {
+			return !found
+		}
+		syntax.Walk(r.Hdoc, func(m syntax.Node) bool {
+			if r2, ok := m.(*syntax.Redirect); ok && (r2.Op == syntax.Hdoc || r2.Op == syntax.DashHdoc) {
+				found = true
+			}
+			return !found
+		})
+		return !found
+	})
+	return found
+}
+
+func c03StartsWithSign(e syntax.ArithmExpr) bool {
+	switch e := e.(type) {
+	case *syntax.UnaryArithm:
+		if e.Post {
+			return c03StartsWithSign(e.X)
+		}
+		switch e.Op {
+		case syntax.Plus, syntax.Minus, syntax.Inc, syntax.Dec:
+			return true
+		}
+	case *syntax.BinaryArithm:
+		return c03StartsWithSign(e.X)
+	}
+	return false
+}
+
+// c03ArithSignsIn: binary=false: a prefix + or - applied to an operand whose
+// text starts with + or - (`- -x`, `+ ++x`); binary=true: a binary + or -
+// whose right operand starts with + or - (`x - -1`, `x + ++y`).
+func c03ArithSignsIn(root syntax.Node, binary bool) bool {
+	found := false
+	syntax.Walk(root, func(n syntax.Node) bool {
+		switch n := n.(type) {
+		case *syntax.UnaryArithm:
+			if !binary && !n.Post && (n.Op == syntax.Plus || n.Op == syntax.Minus) && c03StartsWithSign(n.X) {
+				found = true
+			}
+		case *syntax.BinaryArithm:
+			if binary && (n.Op == syntax.Add || n.Op == syntax.Sub) && c03StartsWithSign(n.Y) {
+				found = true
+			}
+		}
+		return !found
+	})
+	return found
+}
+
+func c03ArithSigns(f *syntax.File, binary bool) bool { return c03ArithSignsIn(f, binary) }
+
+// c03ArithSignsCompactContext: the binary pattern sits where the printer
+// always prints arithmetic without spaces: ${v:off:len} and let.
+func c03ArithSignsCompactContext(f *syntax.File) bool {
+	found := false
+	syntax.Walk(f, func(n syntax.Node) bool {
+		switch n := n.(type) {
+		case *syntax.ParamExp:
+			if n.Slice != nil {
+				if n.Slice.Offset != nil && c03ArithSignsIn(n.Slice.Offset, true) {
+					found = true
+				}
+				if n.Slice.Length != nil && c03ArithSignsIn(n.Slice.Length, true) {
+					found = true
+				}
+			}
+		case *syntax.LetClause:
+			for _, e := range n.Exprs {
+				if c03ArithSignsIn(e, true) {
+					found = true
+				}
+			}
+		}
+		return !found
+	})
+	return found
+}
+
+// c03PrintsFunctionSource: the program declares a function and lists
+// function bodies with declare/typeset -f or type.
+func c03PrintsFunctionSource(f *syntax.File) bool {
+	hasFunc, lists := false, false
+	syntax.Walk(f, func(n syntax.Node) bool {
+		switch n := n.(type) {
+		case *syntax.FuncDecl:
+			hasFunc = true
+		case *syntax.DeclClause:
+			if n.Variant != nil && (n.Variant.Value == "declare" || n.Variant.Value == "typeset") {
+				for _, a := range n.Args {
+					if a.Naked && a.Value != nil {
+						if l := a.Value.Lit(); strings.HasPrefix(l, "-") && strings.Contains(l, "f") {
+							lists = true
+						}
+					}
+				}
+			}
+		case *syntax.CallExpr:
+			if len(n.Args) > 0 {
+				if l := n.Args[0].Lit(); l == "type" {
+					lists = true
+				}
+			}
+		}
+		return true
+	})
+	return hasFunc && lists
+}
+
+// c03ParseTimeSwitch: the program switches on something bash consults while
+// parsing (extglob, alias definitions) and the printed text has that command
+// on the same line as a later command (bash parses a whole line before
+// running any of it).
+func c03ParseTimeSwitch(f *syntax.File, text string) bool {
+	sw := false
+	for _, st := range f.Stmts {
+		syntax.Walk(st, func(n syntax.Node) bool {
+			if ce, ok := n.(*syntax.CallExpr); ok && len(ce.Args) > 0 {
+				switch ce.Args[0].Lit() {
+				case "shopt":
+					for _, a := range ce.Args[1:] {
+						if l := a.Lit(); l == "extglob" || l == "expand_aliases" {
+							sw = true
+						}
+					}
+				case "alias":
+					sw = true
+				}
+			}
+			return true
+		})
+	}
+	if !sw {
+		return false
+	}
+	for _, line := range strings.Split(text, "\n") {
+		if i := strings.Index(line, "extglob"); i >= 0 && strings.Contains(line[i:], ";") {
+			return true
+		}
+		if i := strings.Index(line, "alias "); i >= 0 && strings.Contains(line[i:], ";") {
+			return true
+		}
+	}
+	return false
 }
